@@ -201,16 +201,28 @@ let drt_handler args =
            String.concat ";" (hex_or_dash bs :: dec_result sc dd k bs :: outs))
   | _ -> "?bad-DRT"
 
+(* DCOMPAT sidW schemaW sidR schemaR def value expect: S= is what theorem C10_compat promises — the extracted
+   DeriveMigrate.migrate of the writer's value, read at the end of the writer's encoding; for a value with a variant the reader
+   does not know outside every optional field (migrate = None) only the bytes are pinned.  Cases of the "mandatory field
+   dropped" stream (expect = !missing… / !err: the pair is not schema_compat) carry no such expectation. *)
 let dcompat_handler args =
   match args with
-  | _ :: stw :: _ :: str :: k :: v :: _ ->
+  | _ :: stw :: _ :: str :: k :: v :: rest ->
       let (scw, ddw) = parse_schema stw in
       let (scr, ddr) = parse_schema str in
       let k = int_of_string k in
       let value = value_of ddw k v in
+      let outside = (match rest with e :: _ -> String.length e >= 2 && (String.sub e 0 2 = "!m" || String.sub e 0 2 = "!e") | [] -> true) in
       (match gen_encode scw (nat_of_int k) value with
        | None -> "refused"
-       | Some cs -> let bs = flat cs in Printf.sprintf "%s;%s" (hex_or_dash bs) (dec_result scr ddr k bs))
+       | Some cs ->
+           let bs = flat cs in
+           let r = Printf.sprintf "%s;%s" (hex_or_dash bs) (dec_result scr ddr k bs) in
+           if outside then r
+           else
+             (match migrate scw scr (nat_of_int k) value with
+              | Some v' -> with_spec r (Printf.sprintf "%s;ok:%s@%d" (hex_or_dash bs) (show_dval ddr k v') (List.length bs))
+              | None -> with_spec r (hex_or_dash bs ^ ";*")))
   | _ -> "?bad-DCOMPAT"
 
 let dmeta_handler args =
